@@ -66,7 +66,10 @@ class PedanticBufferWriter {
     if (length_bytes > (size_ - index_))
       return ErrorStatus::WriteLimitReached;
 
-    std::memcpy(&buffer_[index_], begin, length_bytes);
+    // Zero-length transfers may come with null pointers (e.g. the data() of an
+    // empty vector), which memcpy does not accept.
+    if (length_bytes > 0)
+      std::memcpy(&buffer_[index_], begin, length_bytes);
     index_ += length_bytes;
     return {};
   }
@@ -77,7 +80,8 @@ class PedanticBufferWriter {
     if (!status)
       return status;
 
-    std::memset(&buffer_[index_], padding_value, padding_bytes);
+    if (padding_bytes > 0)
+      std::memset(&buffer_[index_], padding_value, padding_bytes);
     index_ += padding_bytes;
     return {};
   }
